@@ -215,7 +215,7 @@ let handle kind fs obs =
             let rec go i = i + k <= n && (String.sub body i k = sub || go (i + 1)) in go 0) in
           List.iter (fun (sub, tg) -> if has sub then tag tg)
             [ ("\\u00", "j-escape-u00"); ("\\\\x", "j-cstr-hex"); ("\"Name\":[", "j-secname-bytes"); ("\"entry\":[{", "j-entry-pgo");
-              ("\"entry\":[]", "j-entry-empty-array"); ("\"entry\":{}", "j-entry-dbg"); ("\"entry\":{\"format", "j-entry-codeview");
+              ("\"entry\":[]", "j-entry-empty-array"); ("\"entry\":{}", "j-entry-dbg"); ("\"entry\":{\"format", "j-entry-codeview"); ("\"format\":\"NB10\"", "j-codeview-nb10"); ("\"OptionalHeader.Subsystem\":null", "j-subsystem-unknown"); ("\"FileHeader.Machine\":null", "j-machine-unknown");
               ("%C3%A9", "j-utf8-2byte"); ("%E2%82%AC", "j-utf8-3byte"); ("%F0%9F%98%80", "j-utf8-4byte"); ("\\\"", "j-escape-quote");
               ("\"ByOrdinal\"", "j-import-by-ordinal"); ("\"callbacks\":null", "j-callbacks-null"); ("\"raw_data\":null", "j-rawdata-null") ];
           let text = nlist_of_pct body in
